@@ -10,7 +10,7 @@ import vlib, build, bpbind, sqfsimg
 from vlib import VERIF, Evidence, Reporter, run_tlc, write_cfg, scratch, SEED, sh
 
 PID = "C06"
-NAME = {"a": b"a", "b": b"b", "dd": b"..", "sl": b"x/y", "dot": b"."}
+NAME = {"a": b"a", "b": b"b", "dd": b"..", "sl": b"x/y", "dot": b".", "A": b"A"}
 
 
 def snapshot(root, exclude):
@@ -88,7 +88,7 @@ def run(tier):
     tools = build.build("asan") + "/bin"
     os.environ["ASAN_OPTIONS"] = "detect_leaks=0:abort_on_error=1"
     rng = random.Random(SEED)
-    base = {"SkipDupCheck": False, "NoSanityInCreate": False, "NoSanityInFill": False, "NoExcl": False, "Emit": False}
+    base = {"SkipDupCheck": False, "NoSanityInCreate": False, "NoSanityInFill": False, "NoExcl": False, "Emit": False, "SortCaseFold": False}
     cfg = work + "/u.cfg"
     write_cfg(cfg, spec="Spec", constants=base, invariants=["Confined"], deadlock=False)
     r = run_tlc("Unpack", cfg, workers=16, timeout=1800, heap="12g")
@@ -100,7 +100,7 @@ def run(tier):
     devres = {}
     witnesses = []
     emitted = []
-    for dev in ["SkipDupCheck", "NoSanityInCreate", "NoSanityInFill"]:
+    for dev in ["SkipDupCheck", "NoSanityInCreate", "NoSanityInFill", "SortCaseFold"]:
         c = dict(base)
         c[dev] = True
         write_cfg(cfg, spec="Spec", constants=c, invariants=["Confined"], deadlock=False)
@@ -127,7 +127,7 @@ def run(tier):
         ev.write()
         return 2
     # sample of the forests via simulation-free enumeration: emit is too large (120k), so sample by constructing forests here
-    names = ["a", "b", "dd", "sl", "dot"]
+    names = ["a", "b", "dd", "sl", "dot", "A"]
     leafs = [{"name": n, "kind": k, "tgt": t, "kids": []} for n in names for k in ("file", "link") for t in ("up", "upup", "absout", "a")]
     nodes = leafs + [{"name": n, "kind": "dir", "tgt": "a", "kids": k} for n in names for k in ([[]] + [[l] for l in leafs])]
     forests = [[n] for n in nodes]
